@@ -221,9 +221,12 @@ def ngram_shard(idx, nshards, stride, known):
             modes = ["plain"]
             if (n // nshards) % stride == 0:
                 modes += ["expand_all", "pre_expand"]
+            nt = len(soup.struct_classes(text)) >= 3
             for mode in modes:
                 r = check_one(ctx, text, mode)
                 part.evaluations += 1
+                if nt:
+                    part.nontrivial.add(h(text + "\0" + mode))
                 if r is None:
                     continue
                 sig, what = r
@@ -240,8 +243,6 @@ def ngram_shard(idx, nshards, stride, known):
     finally:
         ctx.close_db_conn()
     part.classes["gen:core-token-triples"] += part.evaluations
-    for i in range(0, min(part.evaluations, 4000)):
-        part.nontrivial.add(h(("tri", idx, i)))
     for sig, what, rep in buckets.values():
         part.violation(sig, what, rep)
     return part.to_dict()
